@@ -101,8 +101,12 @@ Alts == IF Cardinality(Readings(tag)) = 1 THEN {} ELSE {Expected(tag, r, inp) : 
 
 Emit ==
   (Done /\ rd = "doc") =>
-     PrintT(<<"CASE", ToJson([tag |-> tag, in |-> inp, exp |-> cur,
-                              alt |-> SetToSeq(Alts), ch |-> SetToSeq(chg)])>>)
+     \* expm / altm: what Font::map_glyphs must show as the unicodes of its glyphs (variation
+     \* selectors are consumed by glyph mapping); gen: the generator the text comes from
+     LET alts == SetToSeq(Alts) IN
+     PrintT(<<"CASE", ToJson([tag |-> tag, gen |-> alpha, in |-> inp, exp |-> cur, expm |-> NoVS(cur),
+                              alt |-> alts, altm |-> [i \in DOMAIN alts |-> NoVS(alts[i])],
+                              ch |-> SetToSeq(chg)])>>)
 
 \* ---- bounds -------------------------------------------------------------------
 LenQuick    == [a \in DOMAIN Alpha |-> 4]
